@@ -80,8 +80,13 @@ func (k *Keeper) SlashAssets(ctx sdk.Context, parameter *types.SlashInputInfo) (
 		return nil, err
 	}
 	// calculate the new slash proportion
-	newSlashProportion := slashUSDValue.Quo(stakingInfo.StakingAndWaitUnbonding)
-	newSlashProportion = sdkmath.LegacyMinDec(sdkmath.LegacyNewDec(1), newSlashProportion)
+	newSlashProportion := sdkmath.LegacyNewDec(0)
+	if stakingInfo.StakingAndWaitUnbonding.IsPositive() {
+		newSlashProportion = slashUSDValue.Quo(stakingInfo.StakingAndWaitUnbonding)
+		newSlashProportion = sdkmath.LegacyMinDec(sdkmath.LegacyNewDec(1), newSlashProportion)
+	}
+	// otherwise the operator has no value left (everything was withdrawn, slashed or the prices
+	// are zero): there is nothing to slash, and dividing by zero would panic in BeginBlock.
 
 	executionInfo := &types.SlashExecutionInfo{
 		SlashProportion:    newSlashProportion,
